@@ -45,7 +45,7 @@ type pagePlan struct {
 
 func mkPlan(n, matches int) pagePlan {
 	p := pagePlan{limit: uint64(1 + n%(matches+3)), byOffset: (n/5)%2 == 1, reverse: (n/3)%4 == 3, countTotal: n%2 == 0}
-	if (n/7)%3 == 1 {
+	if (n/7)%3 == 1 || (p.byOffset && n%3 == 0) {
 		p.firstLimit = uint64(1 + (n/11)%(matches+2))
 	}
 	return p
